@@ -26,6 +26,8 @@ Oracle    the property, on the implementation only (no Lean):
   O3 raze       a framer object leaves a frame's aux list only if it is an insular razeable clone (or hangs below one that
                 left); from then on it produces no event, its name and the names of everything below it are no longer
                 registered, and every frame of it that was entered has been exited.  A later `rear` may reuse the name.
+  O5 kinds      in every act list of every frame of every clone the acts have the classes (Act, Nact, …) of the acts of
+                the original's frame.
   O4 reared     the events of a reared clone whose main frame was entered once are a prefix (then exits only) of the
                 events of the original run as an ordinary auxiliary that is never left.
 """
@@ -140,6 +142,8 @@ def render(prog, observer=True):
                     L.append(line)
                 elif t == "under":
                     L.append("    under %s" % it["frame"])
+                elif t == "let":
+                    L.append("    let %sif %s" % ("me " if it.get("me") else "", " and ".join(need_text(n) for n in it["needs"])))
                 elif t == "go":
                     line = "    go %s" % it["far"]
                     if it["needs"]:
@@ -193,7 +197,7 @@ def enc(s):
 
 def act_objects(frame):
     """the real Act objects of a frame by context, in list order"""
-    return {"enter": frame.enacts, "recur": frame.reacts, "exit": frame.exacts, "precur": frame.preacts,
+    return {"benter": frame.beacts, "enter": frame.enacts, "recur": frame.reacts, "exit": frame.exacts, "precur": frame.preacts,
             "renter": frame.renacts, "rexit": frame.rexacts}
 
 
@@ -204,10 +208,25 @@ def share_name(x):
 def ref_shares(fdef, frame):
     """[(item index, sub index, ref, resolved share name)] for every reference of the frame's items"""
     out = []
-    seen = {c: 0 for c in CTXS}
+    seen = {c: 0 for c in CTXS + ["benter"]}
     objs = act_objects(frame)
     for i, it in enumerate(fdef["items"]):
         if it["t"] in ("aux", "under"):
+            continue
+        if it["t"] == "let":
+            # every need of a `let` is an act of its own in frame.beacts (an Nact when negated)
+            for j, n in enumerate(it["needs"]):
+                k = seen["benter"]
+                seen["benter"] += 1
+                if k >= len(objs["benter"]):
+                    out.append((i, j, {"p": "?", "rel": "framer"}, None))
+                    continue
+                act = objs["benter"][k]
+                if n["k"] == "sh":
+                    out.append((i, j, n["ref"], share_name(act.parms["state"])))
+                elif n["k"] in ("el", "re"):
+                    what = "elapsed" if n["k"] == "el" else "recurred"
+                    out.append((i, j, {"p": "state." + what, "rel": "framer"}, share_name(act.parms["state"])))
             continue
         ctx = "precur" if it["t"] == "go" else it["ctx"]
         lst = objs[ctx]
@@ -249,6 +268,7 @@ class Observer:
         self.info = {}          # uid -> dict(name, tag, insular, razeable, original, def)
         self.who = []           # per tick: the framer object of every event of that tick
         self.err_msg = ""       # text of a run-time exception, for the oracle only
+        self.classes = []       # O5: act lists of a clone whose act classes differ from the original's
 
     def taskables(self):
         return [t for house in self.sk.houses for t in house.taskables]
@@ -310,6 +330,20 @@ class Observer:
             fr.name, fr.store.house.name, fr.tag, fr.original, fr.insular, fr.razeable, main, enc(fr.inode),
             fr.first.name if hasattr(fr.first, "name") else enc(fr.first)))
         fdefs = {f["name"]: f for f in self.defs[dname]["frames"]} if dname else {}
+        if dname and not fr.original:
+            orig = fr.store.house.names["tasker"].get(dname)
+            if orig is not None:
+                for frame in fr.frameNames.values():
+                    oframe = orig.frameNames.get(frame.name)
+                    if oframe is None:
+                        self.classes.append("clone %s has a frame %s its original %s has not" % (fr.name, frame.name, dname))
+                        continue
+                    for ctx, lst in act_objects(frame).items():
+                        mine = [type(a).__name__ for a in lst]
+                        theirs = [type(a).__name__ for a in act_objects(oframe)[ctx]]
+                        if mine != theirs:
+                            self.classes.append("clone %s frame %s: the %s acts are %s, those of its original %s are %s" % (
+                                fr.name, frame.name, ctx, mine, dname, theirs))
         for frame in fr.frameNames.values():
             out.append("R %s %s over=%s out=%s" % (fr.name, frame.name, frame.over.name if frame.over else "~",
                                                     ">".join(x.name for x in frame.outline)))
@@ -482,6 +516,10 @@ def encode(prog):
                     t += ["x", it["of"], enc(it.get("as")), enc(it.get("via") or "")]
                 elif it["t"] == "under":
                     t += ["u", it["frame"]]
+                elif it["t"] == "let":
+                    t += ["l", str(len(it["needs"]))]
+                    for n in it["needs"]:
+                        t += enc_need(n)
                 elif it["t"] == "go":
                     t += ["g", it["far"], str(len(it["needs"]))]
                     for n in it["needs"]:
@@ -531,6 +569,27 @@ def gen_need(rng, fr_tags, has_aux, counted, shared_reads):
     else:
         n = {"k": "re", "op": ">=", "v": rng.choice([1, 2])}
     if rng.random() < 0.1:
+        n["neg"] = True
+    return n
+
+
+def gen_entry_need(rng, fr_tags, counted):
+    """an entry condition: plain or negated; framer clocks, framer- / frame-relative shares (== / != only: the share may
+    still hold None), done-state of auxiliaries"""
+    r = rng.random()
+    if r < 0.3:
+        n = {"k": rng.choice(["re", "el"]), "op": rng.choice([">=", "<", "==", "!="]), "v": rng.choice([0, 1, 2])}
+    elif r < 0.6 and counted:
+        n = {"k": "sh", "ref": dict(R_CNT), "op": rng.choice(["==", "!="]), "v": rng.choice([0, 1, 2])}
+    elif r < 0.75:
+        n = {"k": "sh", "ref": dict(R_LIM), "op": rng.choice(["==", "!="]), "v": rng.choice([0, 1])}
+    elif r < 0.85 and fr_tags:
+        n = {"k": "aux", "tag": rng.choice(fr_tags)}
+    elif r < 0.93:
+        n = {"k": rng.choice(["all", "any"])}
+    else:
+        n = {"k": "sh", "ref": {"p": "g.z", "rel": "abs"}, "op": "!=", "v": 7}
+    if rng.random() < 0.5:
         n["neg"] = True
     return n
 
@@ -622,6 +681,10 @@ def gen_body(rng, name, letter, later, is_host, shared_reads, force_clone=False)
                 items.append(act_item("recur", {"k": "inc", "ref": {"p": "x", "rel": "none"}, "v": 1}))
         if not is_host and rng.random() < (0.6 if k == len(kids) - 1 else 0.15):
             items.append(act_item("enter", {"k": "done"}))
+        # entry conditions (`let [me] if [not] need …`): rarely on the first child, so that most framers still start
+        if rng.random() < ((0.3 if not is_host else 0.15) if k > 0 else 0.06):
+            items.append({"t": "let", "me": rng.random() < 0.5,
+                          "needs": [gen_entry_need(rng, tags, counted) for _ in range(rng.choice([1, 1, 2]))]})
     # transitions last (after the acts, so that precur acts come first) — order inside preacts still varies
     for k, f in enumerate(kids):
         has_aux = any(it["t"] == "aux" for it in f["items"]) or any(
@@ -868,7 +931,7 @@ def alone_program(prog, hi, fi, ii):
     host["frames"][fi]["items"][ii] = {"t": "aux", "of": aname, "as": None, "via": None}
     for f in host["frames"]:
         for x in f["items"]:
-            if x["t"] == "go":
+            if x["t"] in ("go", "let"):
                 for n in x["needs"]:
                     if n["k"] == "aux" and n["tag"] == tag:
                         n["tag"] = aname
@@ -896,7 +959,7 @@ def uses_main(fdef):
             for it in f["items"]:
                 if it["t"] == "act" and "ref" in it["a"]:
                     yield it["a"]["ref"]
-                elif it["t"] == "go":
+                elif it["t"] in ("go", "let"):
                     for n in it["needs"]:
                         if n["k"] == "sh":
                             yield n["ref"]
@@ -943,7 +1006,8 @@ class CHECK(core.Check):
             "name registry and its own rears / razes interleaved with the other's (the first house then rears, razes and rears "
             "again under the freed name); in 60 % of the houses with >= 2 moots the last moot is cloned by moots only (clone "
             "nesting depth 2-3) and addresses its main framer and main frame (`of framer main`, `of frame main`: counters, "
-            "needs); per house 1-2 active hosts (a top frame with 2-4 child frames, optionally a third level, the `under` "
+            "needs); entry conditions `let [me] if [not] need [and …]` (plain and negated; framer clocks, framer- / "
+            "frame-relative shares, done-states) on 30 % of the moot frames and some host frames; per house 1-2 active hosts (a top frame with 2-4 child frames, optionally a third level, the `under` "
             "verb choosing a primary under that is not the lexically first child, first frames and transitions that name over "
             "frames and descend to their primary unders, looping transitions on recurred / "
             "elapsed / share / all|any|aux TAG is done) that clone 1-3 moot framers with named tags and `mine`, via none / "
@@ -979,7 +1043,7 @@ class CHECK(core.Check):
                "generated run by the correspondence - X / N lines - and by oracle O3)",
                "the model keeps integer `value` fields only; the CloneError branches of Frame.clone / Act.clone for already "
                "resolved links are folded into one test (unreachable: only moots are cloned and moots are never resolved); "
-               "conditional auxiliaries, beacts, bids and slaves are not in the modelled subset (a clone cannot be "
+               "conditional auxiliaries, bids, slaves and marker needs (`is updated` / `is changed`) are not in the modelled subset (a clone cannot be "
                "a conditional auxiliary)",
                "D5 (a moot that clones itself; C14) is fixed in /repo: resolveMoots refuses it with ResolveError (the lineage "
                "test is in the model; generated as malformed kinds self-clone / clone-loop); a reared clone starts with an "
@@ -993,6 +1057,7 @@ class CHECK(core.Check):
                   "clone's path is the original's with the name segment substituted), C12_main_relative_path_has_main_name "
                   "(`of framer main` / `of frame main` name the framer of the clone's OWN main frame at every nesting depth); "
                   "houses - C12_assign_registries_keeps_registries, C12_pruned_name_freed_in_own_house; what a clone is - "
+                  "C12_clone_preserves_act_kinds (entry conditions with their negation, acts of every context, transitions), "
                   "C12_frame_clone_copies_script, C12_frame_clone_of_unresolved, C12_clone_same_frame_forest (over / under / "
                   "next names copied, so resolveOverLinks and every outline are computed from the same input), "
                   "C12_clone_copies_definition, "
@@ -1055,6 +1120,8 @@ class CHECK(core.Check):
                 return ("O3: a run-time `rear` failed because the name it needs is taken (%s): the name of a razed clone (or of "
                         "a clone below it) was not freed" % errs[0])
             return None                                   # other run-time errors: the model must predict them (stage B)
+        if obs.classes:
+            return "O5: cloning changed the kind of an act: " + obs.classes[0]
         why = relative_refs_ok(obs)
         if why:
             return why
